@@ -23,7 +23,10 @@ REQ = ["Text.FilePos", "Text.FileText", "Text.Split", "Text.Wire", "S2S.Blocks",
 
 warnings.simplefilter("ignore", SyntaxWarning)
 
-TOOLS = ["reformat", "reformat_str", "tidy", "star", "broken", "transform", "canonicalize"]
+TOOLS = ["reformat", "reformat_str", "reformat_ft", "tidy", "star", "broken", "transform", "canonicalize", "cli_reformat", "cli_tidy"]
+
+# internal errors that belong to C03 (block selection / import-set algebra; F23, F24): counted, not judged here
+C03_EXCEPTIONS = {"LineNumberAmbiguousError", "ConflictingImportsError"}
 
 DBS = ["",
        "import os\nimport numpy as np\nfrom pkg import foo, bar\nimport x\n",
@@ -59,8 +62,8 @@ def gen_cases(ctx, n):
         i += 1
         src = G.gen_compilable(r, import_bias=.18, final_newline_p=.85)
         k = r.random()
-        tool = ("reformat" if k < .25 else "tidy" if k < .65 else "reformat_str" if k < .73 else "star" if k < .8
-                else "broken" if k < .87 else "transform" if k < .95 else "canonicalize")
+        tool = ("reformat" if k < .2 else "reformat_ft" if k < .25 else "tidy" if k < .62 else "reformat_str" if k < .7 else "star" if k < .77
+                else "broken" if k < .84 else "transform" if k < .91 else "canonicalize" if k < .95 else "cli_reformat" if k < .975 else "cli_tidy")
         sp = [1, 1]
         if tool in ("reformat", "transform") and r.random() < .15:
             sp = [r.randint(2, 30), r.choice([1, 1, 4])]
@@ -131,6 +134,12 @@ def impl_case(c):
                 params = ImportFormatParams(**c["params"]) if c["params"] else None
                 if tool == "reformat_str":
                     res = S.reformat_import_statements(src, params=params)
+                elif tool == "reformat_ft":
+                    from pyflyby._file import FileText
+                    res = S.reformat_import_statements(FileText(src), params=params)
+                elif tool in ("cli_reformat", "cli_tidy"):
+                    res = None
+                    out["out"] = run_cli(tool, src)
                 else:
                     block = PythonBlock(src, startpos=tuple(c["sp"]))
                     if tool == "reformat":
@@ -149,7 +158,8 @@ def impl_case(c):
                         res = S.canonicalize_imports(block, params=params, db=ImportDB(DBS[c["db"]]))
                     else:
                         raise ValueError(tool)
-                out["out"] = res.text.joined
+                if res is not None:
+                    out["out"] = res.text.joined
             except BaseException as e:
                 out["exc"] = type(e).__name__
                 out["msg"] = str(e)[:200]
@@ -159,6 +169,36 @@ def impl_case(c):
         logging.disable(logging.NOTSET)
     out["passes"] = passes
     return out
+
+
+def run_cli(tool, src):
+    """bin/reformat-imports --print / bin/tidy-imports --print on a scratch file (default action set
+    replaced by --print; PYFLYBY_PATH=EMPTY from the harness environment: empty database)"""
+    import os
+    import shutil
+    import subprocess
+    import sys
+    import tempfile
+    d = tempfile.mkdtemp(prefix="verif-c01-")
+    try:
+        path = os.path.join(d, "m.py")
+        with open(path, "w", encoding="utf-8", newline="") as f:
+            f.write(src)
+        script = os.path.join(os.environ["VERIF_REPO"], "bin", "reformat-imports" if tool == "cli_reformat" else "tidy-imports")
+        p = subprocess.run([sys.executable, script, "--print", path], stdout=subprocess.PIPE, stderr=subprocess.PIPE,
+                           timeout=50, env=dict(os.environ), cwd=d)
+        if p.returncode != 0:
+            err = p.stderr.decode("utf-8", "replace")
+            for name in sorted(C03_EXCEPTIONS):
+                if ("." + name) in err or (name + ":") in err:
+                    raise type(name, (Exception,), {})(err[-200:])
+            raise RuntimeError("CLI exit status %d: %s" % (p.returncode, p.stderr.decode("utf-8", "replace")[-300:]))
+        with open(path, encoding="utf-8", newline="") as f:
+            if f.read() != src:
+                raise RuntimeError("--print modified the file")
+        return p.stdout.decode("utf-8")
+    finally:
+        shutil.rmtree(d, ignore_errors=True)
 
 
 # ---------------------------------------------------------------------------------------------
@@ -367,9 +407,12 @@ def compare_one(ctx, c, im, mvs):
     src = c["src"]
     nontriv = False
     if "exc" in im:
-        # internal errors of the tools on compilable input are C03's clause (no_internal_error); counted here
         ctx.bump("tool_raised:" + im["exc"])
         ctx.count(short(c), False)
+        if im["exc"] not in C03_EXCEPTIONS:
+            # the structural functions modelled here raise nothing on a compilable module
+            # (C10_statements_total; preprocess / insert / print are total)
+            ctx.violation("no_internal_error", short(c), "%s: %s" % (im["exc"], im.get("msg", "")[:160]))
         return
     # ---- correspondence, pass by pass
     expected_input = src
@@ -396,6 +439,8 @@ def compare_one(ctx, c, im, mvs):
         if any(b["imports"] for b in p["blocks"]):
             nontriv = True
         ctx.bump("import_blocks:%d" % min(4, sum(1 for b in p["blocks"] if b["imports"])))
+    if c["tool"] in ("reformat_ft",) and not im["passes"]:
+        ctx.disagreement("no transformer pass recorded", short(c), None, None)
     if im["passes"] and im["out"] != im["passes"][-1]["out"]:
         ctx.disagreement("tool result is not the output of its last pass", short(c), im["out"][-80:], im["passes"][-1]["out"][-80:])
     # ---- oracle
@@ -413,7 +458,7 @@ def compare_one(ctx, c, im, mvs):
             ctx.known_hit("F12", "reformat_import_statements(str without final newline) returns the text with a newline added, e.g. %r -> %r" % (src[-20:], im["out"][-20:]))
             ctx.bump("F12")
         else:
-            ctx.violation("reformat_frame" if c["tool"].startswith("reformat") else "edit_frame/insert_frame", short(c), detail)
+            ctx.violation("reformat_frame" if "reformat" in c["tool"] else "edit_frame/insert_frame", short(c), detail)
     if not src.endswith("\n"):
         ctx.bump("no_final_newline")
     ctx.count(short(c), nontriv)
